@@ -13,6 +13,7 @@ import (
 	"errors"
 	"fmt"
 	"io"
+	"os"
 	"sort"
 	"strings"
 	"time"
@@ -575,7 +576,7 @@ func (env *c14Env) copySweep(sp *c14Spec, src []byte) {
 				for _, x := range cases {
 					specs = append(specs, fmt.Sprintf("%d:%d", x.item, x.avail))
 				}
-				answers = strings.Split(c.Ask(fmt.Sprintf("c14.copyshort 1 %d %d %s", lay.id, cfg.bufSize(), strings.Join(specs, ";"))), ",")
+				answers = strings.Split(c.Ask(fmt.Sprintf("c14.copyshort "+c14CopyCnt()+" %d %d %s", lay.id, cfg.bufSize(), strings.Join(specs, ";"))), ",")
 				if len(answers) != len(cases) {
 					c.Mismatch("corr:C14.copy", "oracle answer", "-", core.Trunc(strings.Join(answers, ","), 300), nil)
 					answers = nil
@@ -604,7 +605,7 @@ func (env *c14Env) copySweep(sp *c14Spec, src []byte) {
 						}
 						fmt.Fprint(&sb, k)
 					}
-					answers = strings.Split(c.Ask(fmt.Sprintf("c14.copy 1 %d %d %s %s _", lay.id, cfg.bufSize(), kind, sb.String())), ",")
+					answers = strings.Split(c.Ask(fmt.Sprintf("c14.copy "+c14CopyCnt()+" %d %d %s %s _", lay.id, cfg.bufSize(), kind, sb.String())), ",")
 					if len(answers) != len(ks) {
 						c.Mismatch("corr:C14.copy", "oracle answer", "-", core.Trunc(strings.Join(answers, ","), 300), nil)
 						answers = nil
@@ -624,7 +625,7 @@ func (env *c14Env) copySweep(sp *c14Spec, src []byte) {
 				for _, k := range []int{3, len(lay.ref) / 2} {
 					mv := ""
 					if c.HasOracle() {
-						mv = c.Ask(fmt.Sprintf("c14.copy 1 %d %d err %d %d:%d", lay.id, cfg.bufSize(), k, x.item, x.avail))
+						mv = c.Ask(fmt.Sprintf("c14.copy "+c14CopyCnt()+" %d %d err %d %d:%d", lay.id, cfg.bufSize(), k, x.item, x.avail))
 					}
 					// the short read may never be reached when the destination fails first
 					env.copyBoth(sp, cfg, lay, c14Fault{Kind: "err", K: k}, x.item, x.avail, x.arm, mv, bucket+"/both")
@@ -669,6 +670,17 @@ func (env *c14Env) copyBoth(sp *c14Spec, cfg c14Cfg, lay *c14CopyLayout, f c14Fa
 			c.Mismatch("corr:C14.copy", where, implS, modelS+" (item "+fmt.Sprint(m.site)+")", rp)
 		}
 	}
+}
+
+// c14CopyCnt selects the model of the copy path: the current code ("1": count
+// checks of copySection present) or, with C14_COPY_PINNED set, the code before
+// commit 9565563 ("0") — used with bin/mutcheck mutants/C14/rev_copy_truncated_source.diff
+// to validate the pinned model that Properties/C14.v refutes.
+func c14CopyCnt() string {
+	if os.Getenv("C14_COPY_PINNED") != "" {
+		return "0"
+	}
+	return "1"
 }
 
 func (env *c14Env) copyOffsets(lay *c14CopyLayout, stride int, dense bool) []int {
@@ -726,7 +738,7 @@ func (env *c14Env) replayCopy(rp c14CopyReplay) {
 		spec = fmt.Sprintf("%d:%d", rp.Item, rp.Avail)
 	}
 	if env.c.HasOracle() {
-		mv = env.c.Ask(fmt.Sprintf("c14.copy 1 %d %d %s %d %s", lay.id, rp.Cfg.bufSize(), f.Kind, f.K, spec))
+		mv = env.c.Ask(fmt.Sprintf("c14.copy "+c14CopyCnt()+" %d %d %s %d %s", lay.id, rp.Cfg.bufSize(), f.Kind, f.K, spec))
 	}
 	if rp.Item >= 0 && f.Kind != "none" {
 		env.copyBoth(sp, rp.Cfg, lay, f, rp.Item, rp.Avail, arm, mv, "replay")
